@@ -59,7 +59,11 @@ type sbind struct {
 type sframe struct {
 	vars    map[string]*sbind
 	hides   map[string]int // names being defined in this frame: invisible inside deeper functions
-	fnDepth int
+	// names referred to (through a binding of an outer frame) while this frame was open: a
+	// closure created in this frame may hold such a reference, and a later def of the name in
+	// this frame would be what it sees; such a def keeps the type and the rank of the outer binding
+	outerRefs map[string]bool
+	fnDepth   int
 }
 
 type scg struct {
@@ -105,7 +109,7 @@ func (e *scg) withLimit(lim int, gen func()) int {
 
 func (e *scg) rnd(n int) int { return e.g.Rng.Intn(n) }
 func (e *scg) push() {
-	e.frames = append(e.frames, &sframe{vars: map[string]*sbind{}, hides: map[string]int{}, fnDepth: e.fnDepth})
+	e.frames = append(e.frames, &sframe{vars: map[string]*sbind{}, hides: map[string]int{}, outerRefs: map[string]bool{}, fnDepth: e.fnDepth})
 }
 func (e *scg) pop() { e.frames = e.frames[:len(e.frames)-1] }
 func (e *scg) pushFn(self string) {
@@ -167,6 +171,14 @@ func (e *scg) visible(n string) *sbind {
 	return nil
 }
 
+// noteRef: a reference to n, resolved to binding b, was written while the frames above b's
+// were open.
+func (e *scg) noteRef(n string, b *sbind) {
+	for i := b.frame + 1; i < len(e.frames); i++ {
+		e.frames[i].outerRefs[n] = true
+	}
+}
+
 func (e *scg) hide(n string) func() {
 	fr := e.frames[len(e.frames)-1]
 	fr.hides[n]++
@@ -216,6 +228,9 @@ func (e *scg) ref(n string) *nd {
 	b := e.visible(n)
 	if b != nil && holdsClosures(b.ty) && b.rank > e.maxRef {
 		e.maxRef = b.rank
+	}
+	if b != nil {
+		e.noteRef(n, b)
 	}
 	if b != nil {
 		cross := e.fnDepth - b.fnDepth
@@ -443,6 +458,7 @@ func (e *scg) setForm(n string, t sty, d int) *nd {
 	b := e.visible(n)
 	e.g.Count("form set")
 	if b != nil {
+		e.noteRef(n, b)
 		cross := e.fnDepth - b.fnDepth
 		if cross > 0 && b.frame > 0 {
 			e.feat["set captured local"] = true
@@ -532,24 +548,19 @@ func (e *scg) letForm(t sty, d int) *nd {
 		names = append(names, nm)
 		types = append(types, bt)
 	}
-	if !seq {
-		// parallel let: the initialisers run inside the new scope before any of the names
-		// is bound there; a closure made by an initialiser sees the new bindings later
-		for _, nm := range names {
-			unhide = append(unhide, e.hide(nm))
-		}
+	// the initialisers run inside the new scope; a closure made by one of them captures that
+	// scope and later sees every name the form binds there afterwards (all of them for let,
+	// the own and the later ones for letseq): inside function bodies those names are hidden
+	for _, nm := range names {
+		unhide = append(unhide, e.hide(nm))
 	}
 	for i, nm := range names {
-		var u func()
-		if seq {
-			u = e.hide(nm)
-		}
 		var init *nd
 		rk := e.withLimit(0, func() { init = e.expr(types[i], d-1) })
 		ranks = append(ranks, rk+1)
 		binds = append(binds, A(nm), init)
 		if seq {
-			u()
+			unhide[i]()
 			e.bind(nm, types[i]).rank = rk + 1
 		}
 	}
@@ -593,12 +604,25 @@ func (e *scg) defStmt(d int) *nd {
 		if lim == 0 {
 			lim = 1
 		}
+	} else if ob := e.visible(n); !ok && ob != nil && fr.outerRefs[n] {
+		// see sframe.outerRefs
+		if ob.noset {
+			return L(A("trace"), e.expr(sI, d-1))
+		}
+		e.g.Count("stmt def shadowing a name already referred to in this scope")
+		t = ob.ty
+		if holdsClosures(t) {
+			lim, rank = ob.rank, ob.rank
+			if lim == 0 {
+				lim = 1
+			}
+		}
 	}
 	u := e.hide(n)
 	var rhs *nd
 	rk := e.withLimit(lim, func() { rhs = e.expr(t, d-1) })
 	u()
-	if lim == 0 {
+	if lim == 0 && holdsClosures(t) {
 		rank = rk + 1
 	}
 	e.bind(n, t).rank = rank
@@ -617,6 +641,8 @@ func (e *scg) defnStmt(d int) *nd {
 		if t == sI || t == sA {
 			return e.defStmt(d)
 		}
+	} else if ob := e.visible(n); ob != nil && fr.outerRefs[n] {
+		return e.defStmt(d)
 	}
 	e.g.Count("stmt defn")
 	if e.fnDepth > 0 {
@@ -855,6 +881,8 @@ var scopeShapes = []struct{ name, text string }{
 	{"one-form function body defines a local", "(def $X 1) ((fn [] (def $X 2))) (defn $Y [] (def $X 3)) ($Y) $X"},
 	{"loop with a one-form body defining a local", "(def $X 1) (for [(def $Y 0) (< $Y 2) (set $Y (+ $Y 1))] (def $X (+ $Y 10))) $X"},
 	{"nested one-form scopes capture separately", "(def q (newScope (let [$X 1] (newScope (fn [] (set $X (+ $X 1)) $X))))) [(q) (q)]"},
+	{"closure made by a let initialiser sees the let's bindings", "(def $Y 9) [(let [$X (fn [] $Y) $Y 2] ($X)) (letseq [$X (fn [] $Y) $Y 3] ($X)) (let [$X (fn [] (set $Y (+ $Y 1)) $Y) $Y 5] [($X) $Y]) $Y]"},
+	{"let initialisers do not see the let's own names", "(def $X 1) (def $Y 2) [(let [$X $Y $Y $X] [$X $Y]) (letseq [$X $Y $Y $X] [$X $Y]) (let [$X (+ $X 10)] (let [$X (+ $X 100)] $X))]"},
 	{"maker called in a tail-recursive loop", "(defn $Z [$X] (fn [] $X)) (defn $Y [$X q] (cond (== $X 0) q ($Y (- $X 1) (append q ($Z $X))))) (map (fn [r] (r)) ($Y 3 []))"},
 }
 
